@@ -287,7 +287,8 @@ fn packets6(run: &Arc<Run>, tier: Tier) {
             cases.push((4, tok, len, 1)); // close
         }
         for class in 0..4 {
-            for len in 0..=1390 {
+            // up to what a datagram can carry: 1400 - 3 (header) - 4 (token, if any)
+            for len in 0..=(if tok { 1393 } else { 1397 }) {
                 cases.push((5, tok, len, class)); // chunks
                 cases.push((6, tok, len, class)); // chunks + request_resend
             }
